@@ -7,12 +7,13 @@ import json
 import multiprocessing as mp
 import os
 import sys
+sys.set_int_max_str_digits(0)
 import time
 
 VERIF = os.path.dirname(os.path.dirname(os.path.abspath(__file__)))
 sys.path.insert(0, VERIF)
 
-from pbsym.runner import jsonable, source_hashes, unjson_values, worker  # noqa: E402
+from pbsym.runner import jsonable, prepare_units, source_hashes, unjson_values, worker  # noqa: E402
 
 
 def load_known(pid):
@@ -49,7 +50,7 @@ def main(argv=None):
         return do_replay(mod, pid, a.replay)
 
     tier = a.tier
-    units = mod.units(tier)
+    units = prepare_units(mod, tier)
     if a.units:
         units = [u for u in units if a.units in u.name]
     if a.list:
@@ -66,22 +67,55 @@ def main(argv=None):
     results = {}
     ctx = mp.get_context("spawn")
     jobs = max(1, min(a.jobs, len(units)))
-    with cf.ProcessPoolExecutor(max_workers=jobs, mp_context=ctx) as ex:
+    known0 = load_known(pid)
+    ex = cf.ProcessPoolExecutor(max_workers=jobs, mp_context=ctx)
+    stop_at = None
+
+    def skipped(name):
+        return {"unit": name, "verdict": "skipped", "violations": [], "unconfirmed": [], "wall_s": 0,
+                "reason": "not run to completion: a reproduced violation had already decided the run"}
+    try:
         futs = {ex.submit(worker, (pid, tier, units[i].name)): units[i] for i in order}
-        for f in cf.as_completed(futs):
-            u = futs[f]
-            try:
-                r = f.result()
-            except Exception as e:
-                r = {"unit": u.name, "verdict": "inconclusive", "reason": f"worker died: {e!r}", "violations": [],
-                     "unconfirmed": [], "wall_s": 0}
-            results[u.name] = r
-            extra = f" reason={r.get('reason', '')[:300]}" if r["verdict"] != "ok" else ""
-            print(f"[{pid}] unit {u.name}: {r['verdict']} paths={r.get('paths', 0)} queries={r.get('queries', 0)} "
-                  f"solver={r.get('solver_s', 0):.1f}s wall={r.get('wall_s', 0)}s witness_ok={r.get('witness_ok', 0)}{extra}",
-                  flush=True)
-            if r.get("trace") and os.environ.get("VERIF_DEBUG"):
-                print(r["trace"])
+        pending = set(futs)
+        while pending:
+            done_now, pending = cf.wait(pending, timeout=5, return_when=cf.FIRST_COMPLETED)
+            for f in done_now:
+                u = futs[f]
+                try:
+                    r = f.result()
+                except cf.CancelledError:
+                    r = skipped(u.name)
+                except Exception as e:
+                    r = {"unit": u.name, "verdict": "inconclusive", "reason": f"worker died: {e!r}", "violations": [],
+                         "unconfirmed": [], "wall_s": 0}
+                results[u.name] = r
+                if stop_at is None and any(match_known(known0, v["signature"]) is None for v in r.get("violations", [])):
+                    # a new reproduced violation decides the run: short grace period for running units, drop the rest
+                    stop_at = time.time() + (20 if tier == "quick" else 120)
+                    for g in pending:
+                        g.cancel()
+                if r["verdict"] == "skipped":
+                    continue
+                extra = f" reason={r.get('reason', '')[:300]}" if r["verdict"] != "ok" else ""
+                print(f"[{pid}] unit {u.name}: {r['verdict']} paths={r.get('paths', 0)} queries={r.get('queries', 0)} "
+                      f"solver={r.get('solver_s', 0):.1f}s maxq={r.get('max_query_s', 0)}s wall={r.get('wall_s', 0)}s witness_ok={r.get('witness_ok', 0)}{extra}",
+                      flush=True)
+                if r.get("trace") and os.environ.get("VERIF_DEBUG"):
+                    print(r["trace"])
+            if stop_at is not None and time.time() > stop_at and pending:
+                for f in pending:
+                    f.cancel()
+                    results[futs[f].name] = skipped(futs[f].name)
+                for proc in list(getattr(ex, "_processes", {}).values()):
+                    try:
+                        proc.terminate()
+                    except Exception:
+                        pass
+                pending = set()
+    finally:
+        ex.shutdown(wait=False, cancel_futures=True)
+    for u in units:
+        results.setdefault(u.name, skipped(u.name))
     wall = time.time() - t0
 
     known = load_known(pid)
@@ -94,7 +128,8 @@ def main(argv=None):
                 known_hits.setdefault(e["id"], (e, []))[1].append(v)
             else:
                 new_violations.append(v)
-    inconclusive = [r for r in results.values() if r["verdict"] == "inconclusive"]
+    inconclusive = [r for r in results.values() if r["verdict"] in ("inconclusive", "skipped") and
+                    (r["verdict"] == "inconclusive" or not new_violations)]
 
     for kid, (e, vs) in sorted(known_hits.items()):
         print(f"KNOWN-FINDING: property={pid} {e['id']}: {e['text']} (signature {e['signature']}; {len(vs)} counterexample(s) this run)")
@@ -153,7 +188,7 @@ def write_evidence(mod, pid, tier, seed, units, results, wall, new_violations, k
         "samples": samples,
         "exhaustive": all(r["verdict"] in ("ok", "violation") for r in rs) and not inconclusive,
         "units": [{k: r.get(k) for k in ("unit", "bounds", "verdict", "reason", "paths", "aborted", "branches", "queries",
-                                         "q_sat", "q_unsat", "q_unknown", "solver_s", "wall_s", "reached_paths",
+                                         "q_sat", "q_unsat", "q_unknown", "solver_s", "max_query_s", "wall_s", "reached_paths",
                                          "checks", "witness_ok", "witness_skipped")} for r in rs],
         "functions_encoded": source_hashes(fnames),
         "queries_by_verdict": q,
